@@ -633,10 +633,15 @@ fn expr_has_side_effects(e: &ast::Expr) -> bool {
                     .unwrap_or(false)
         }
         ast::Expr::FieldAccess { obj, .. } => expr_has_side_effects(obj),
-        ast::Expr::Index { array, index, .. } => {
-            expr_has_side_effects(array) || expr_has_side_effects(index)
-        }
+        // Indexing fails at run time when the index is out of range; the failure is
+        // an observable effect of the program, so an unused element read is kept.
+        ast::Expr::Index { .. } => true,
         ast::Expr::UnaryOp { expr, .. } => expr_has_side_effects(expr),
+        // Integer division by zero fails at run time.
+        ast::Expr::BinaryOp {
+            op: ast::GoBinaryOp::Div,
+            ..
+        } => true,
         ast::Expr::BinaryOp { lhs, rhs, .. } => {
             expr_has_side_effects(lhs) || expr_has_side_effects(rhs)
         }
